@@ -825,6 +825,36 @@ package catalog
 //@   unclaimed #requires@Update see above
 //@   unclaimed #requires@String see AddHTTPMethod
 
+// ---------------------------------------------------------------- second Query / request Headers / response Headers (C11 "a second singleton child")
+// hiKnown(c, d): the directive's interaction is registered and is an HTTP interaction; hiOf(c, d): that interaction.
+//@ pred hiKnown(c *Catalog, d directive.Directive) = has(c.Interactions.data, box(HTTPInteractionID, httpIdOf(d))) && typeis(c.Interactions.data[box(HTTPInteractionID, httpIdOf(d))], *HTTPInteraction)
+//@ pred hiOf(c *Catalog, d directive.Directive) = asptr(*HTTPInteraction, ifaceptr(c.Interactions.data[box(HTTPInteractionID, httpIdOf(d))]))
+//@ func (*Catalog).AddQueryToCurrentMethod
+//@   tag C11 C01
+//@   requires c != nil && DirWFv(d) && c.Interactions != nil && RepInvInteractions(c.Interactions) && c.Interactions.mx == 0
+//@   ensures [C11] old(hiKnown(c, d) && hiOf(c, d).Query != nil) ==> !isnil(ret) && unchanged()
+//@   unclaimed #type-assert see AddResponseBody
+//@   unclaimed #nil-deref see AddResponseBody
+//@   unclaimed #requires@Update see AddResponseBody
+//@   unclaimed #requires@String see AddHTTPMethod
+//@ func (*Catalog).AddRequestHeaders
+//@   tag C11 C01
+//@   requires c != nil && DirWFv(d) && c.Interactions != nil && RepInvInteractions(c.Interactions) && c.Interactions.mx == 0
+//@   ensures [C11] old(hiKnown(c, d) && hiOf(c, d).Request != nil && hiOf(c, d).Request.HTTPRequestHeaders != nil) ==> !isnil(ret) && unchanged()
+//@   unclaimed #type-assert see AddResponseBody
+//@   unclaimed #nil-deref see AddResponseBody
+//@   unclaimed #requires@Update see AddResponseBody
+//@   unclaimed #requires@String see AddHTTPMethod
+//@ func (*Catalog).AddResponseHeaders
+//@   tag C11 C01
+//@   requires c != nil && DirWFv(d) && c.Interactions != nil && RepInvInteractions(c.Interactions) && c.Interactions.mx == 0
+//@   ensures [C11] old(hiKnown(c, d) && len(hiOf(c, d).Responses) > 0 && hiOf(c, d).Responses[len(hiOf(c, d).Responses) - 1].Headers != nil) ==> !isnil(ret) && unchanged()
+//@   unclaimed #type-assert see AddResponseBody
+//@   unclaimed #nil-deref see AddResponseBody
+//@   unclaimed #index the response list of the interaction is read through an unmodelled interface value
+//@   unclaimed #requires@Update see AddResponseBody
+//@   unclaimed #requires@String see AddHTTPMethod
+
 // ---------------------------------------------------------------- serialisation entry points (C09)
 // Both forms are exactly the bytes encoding/json produced for the catalog (jsonOf / jsonIndentOf, deps.spec): nothing
 // rewrites the output afterwards, so the indented form is valid JSON and denotes the same value as the compact one
